@@ -31,6 +31,8 @@ def plan(tier: str, seed: int) -> list[dict]:
     shards = [{"seed": seed * 10_000 + i, "n": per, "kmax": kmax} for i in range(n)]
     # the same workload in an interpreter started with -O (assert statements stripped): what the writer refuses and writes does not depend on it
     shards += [{"seed": seed * 10_000 + 5000 + i, "n": per // 2, "kmax": min(kmax, 2), "optimized": True} for i in range(2 if tier == "quick" else 6)]
+    # ... and in one started with -W error (warnings are errors, as test runners and strict deployments have it)
+    shards += [{"seed": seed * 10_000 + 6000 + i, "n": per // 2, "kmax": min(kmax, 2), "optimized": True, "flags": ["-W", "error"]} for i in range(2 if tier == "quick" else 6)]
     return shards
 
 
@@ -47,7 +49,8 @@ def _in_optimized_interpreter(what: str, payload: dict) -> Res:
     env = dict(os.environ, VERIF_C11_INNER="1")
     res = Res()
     try:
-        cp = subprocess.run([sys.executable, "-O", "-W", "ignore", "-c", code, what, json.dumps(payload)], env=env, capture_output=True, text=True, timeout=900)
+        flags = payload.get("flags") or ["-O", "-W", "ignore"]
+        cp = subprocess.run([sys.executable, *flags, "-c", code, what, json.dumps(payload)], env=env, capture_output=True, text=True, timeout=900)
     except subprocess.TimeoutExpired:
         res.undecided("the -O child interpreter did not finish within 900 s")
         return res
@@ -58,8 +61,9 @@ def _in_optimized_interpreter(what: str, payload: dict) -> Res:
     inner: Res = pickle.loads(base64.b64decode(line[7:]))
     for v in inner.violations:
         v["witness"]["optimized"] = True
-        v["detail"] = "interpreter started with -O: " + v["detail"]
-    inner.count("histories_in_an_interpreter_started_with_O", payload.get("n", 1))
+        v["witness"]["flags"] = payload.get("flags")
+        v["detail"] = f"interpreter started with {' '.join(payload.get('flags') or ['-O'])}: " + v["detail"]
+    inner.count("histories_in_an_interpreter_started_with_" + "_".join(f.strip("-") for f in (payload.get("flags") or ["-O"])), payload.get("n", 1))
     return inner
 
 
@@ -157,7 +161,7 @@ def gen_history(rng: random.Random, kmax: int) -> dict:
             writes.append([addr, ln, rng.getrandbits(32)])
             continue
         writes.append([gen_addr(rng, ln), ln, rng.getrandbits(32)])
-    return {"copier": rng.random() < 0.5, "writes": writes, "reuse_buffer": rng.random() < 0.25, "debug_logging": rng.random() < 0.2}
+    return {"copier": rng.random() < 0.5, "writes": writes, "reuse_buffer": rng.random() < 0.25, "debug_logging": rng.random() < 0.2, "carry_on": rng.random() < 0.5}
 
 
 def content_for(w: list) -> bytes:
@@ -216,6 +220,8 @@ def run_history(res: Res, hist: dict) -> None:
         expected = ips.Image()
         total = 0
         refused = None
+        carried = None
+        accepted_after: list = []
         for i, wr in enumerate(hist["writes"]):
             addr, length, _ = wr
             data = content_for(wr)
@@ -236,12 +242,21 @@ def run_history(res: Res, hist: dict) -> None:
                     res.violate("representable-refused", f"write #{i} of {length} bytes at {addr:#x} (copier={copier}) raised {e!r}", hist)
                 else:
                     res.count("refused_unrepresentable")
+                if hist.get("carry_on") and carried is None:
+                    # the caller catches the refusal and goes on with the writer (the refused block may have reached the file in part: whole
+                    # records of it, in order)
+                    carried = (i, addr, length, data)
+                    continue
                 break
             if length:
                 expected.write(addr + delta, data)
                 total += length
-        if refused is not None:
+                accepted_after.append((addr, data)) if carried is not None else None
+        if refused is not None and carried is None:
             res.case(None, nontrivial=False)
+            return
+        if refused is not None and refused[0] != carried[0]:
+            res.case(None, nontrivial=False)       # a second refusal: the history ends here
             return
         w.end()
     finally:
@@ -275,6 +290,29 @@ def run_history(res: Res, hist: dict) -> None:
     if trailing:
         mech = "eof-offset-record" if any(a + delta == EOF_OFF or a == EOF_OFF for a, _ in headers) else "trailing-data"
         res.violate(mech, f"standard reader stops early: {len(trailing)} bytes follow the first EOF marker at a record boundary (record offsets written: {[hex(a) for a, _ in headers][:8]})", hist)
+        return
+    if carried is not None:
+        # after a refusal that the caller survived: a well-formed file (checked above) that holds every accepted write; of the refused block
+        # any number of leading whole records may be there
+        res.count("histories_carried_on_after_a_refusal")
+        ci, caddr, clen, cdata = carried
+        ok_any = False
+        for j in range(len(slices_of(caddr, clen)) + 1):
+            cand = ips.Image()
+            for k2, wr2 in enumerate(hist["writes"]):
+                a2, l2, _ = wr2
+                if k2 == ci:
+                    for sa, sl in slices_of(caddr, clen)[:j]:
+                        if 0 <= sa + delta < (1 << 24):
+                            cand.write(sa + delta, cdata[sa - caddr:sa - caddr + sl])
+                elif l2:
+                    cand.write(a2 + delta, content_for(wr2))
+            if cand == got:
+                ok_any = True
+                break
+        if not ok_any:
+            res.violate("image-differs", f"after a refused block (write #{ci}) the caller went on: the finished file does not hold the accepted writes (plus leading records of the refused one): "
+                        f"{got.first_difference(expected)} (got vs accepted writes only)", hist)
         return
     if got != expected:
         out_of_range = any(ln and not (a + delta >= 0 and a + delta + ln <= (1 << 24)) for a, ln, _ in hist["writes"])
